@@ -129,7 +129,10 @@ If several alignments are present in the input file and the output is a file
 				}
 			}
 			if refseq {
-				start, len, err = al.RefCoordinates(subseqrefseq, start, len)
+				if start, len, err = al.RefCoordinates(subseqrefseq, start, len); err != nil {
+					io.LogError(err)
+					return
+				}
 			}
 			subalignnum := 0
 			for {
